@@ -24,23 +24,6 @@ NewM == Memberships \cup {"garbage", "missing"}
 JR8 == {"absent", "public", "invite", "knock", "restricted", "knock_restricted", "private", "nokey"}
 Thr4 == {Absent, 1, 2, 3}
 
-BaseSt == [create |-> [present |-> TRUE, room |-> "same", federate |-> "absent", addl |-> {}],
-           pl |-> [present |-> FALSE, c |-> EmptyPL],
-           jr |-> "absent", mem |-> [u \in Users |-> "absent"],
-           tpi |-> "absent", tpisender |-> "creator", mixedrooms |-> FALSE]
-
-BaseEv == [type |-> "msg", sender |-> "alice", target |-> "alice", membership |-> "join",
-           prev |-> "other", authvia |-> "none", tpi |-> "none", skey |-> "none",
-           redacts |-> "own_domain", newpl |-> EmptyPL,
-           c_prevs |-> FALSE, c_domain |-> "match", c_roomid |-> FALSE, c_rv |-> "own",
-           c_creator |-> TRUE, c_addl |-> "none"]
-
-WithMem(s, u, m) == [s EXCEPT !.mem[u] = m]
-WithPL(s, c) == [s EXCEPT !.pl = [present |-> TRUE, c |-> c]]
-
-MemberEv(sender, target, m) == [BaseEv EXCEPT !.type = "member", !.sender = sender, !.target = target,
-                                               !.membership = m, !.skey = "self"]
-
 \* ---- member_self: a user changes their own membership ------------------------
 InitMemberSelf ==
     \E u \in {"creator", "alice", "bob"}, m \in NewM, old \in M7, fed \in {"absent", "false"} :
